@@ -1095,6 +1095,11 @@ def inline_tree(tree: ast.Module, keep: Iterable[str]) -> ast.Module:
                 if isinstance(m, FuncNode):
                     units.append((n, m))
     for cls, fn in units:
+        try:
+            _pass_walrus(fn)  # `if (x := self._h()) ..` must become a plain assignment before helpers are inlined
+        except RecursionError:
+            pass
+    for cls, fn in units:
         # helpers that will themselves be inlined elsewhere are still processed (nested splitting)
         inl = _Inliner(mod, cls, fn)
         fn.body = inl.block(fn.body)
